@@ -334,7 +334,7 @@ Section Thm.
   Definition hits (attr : list N) (l : list entry) (i : nat) : bool :=
     existsb (fun e => match e with
                       | EIdx j => Nat.eqb j i
-                      | EName t => match nth_error attr i with Some a => N.eqb a t | None => false end
+                      | EName t => match nth_error attr i with Some a => e_match E t a | None => false end
                       end) l.
   Definition hits_opt (attr : list N) (o : option sel) (i : nat) : bool :=
     match o with Some (SList l) => hits attr l i | _ => false end.
@@ -358,24 +358,24 @@ Section Thm.
     hits attr (e :: l) i =
     (match e with
      | EIdx j => Nat.eqb j i
-     | EName t => match nth_error attr i with Some a => N.eqb a t | None => false end
+     | EName t => match nth_error attr i with Some a => e_match E t a | None => false end
      end) || hits attr l i.
   Proof. reflexivity. Qed.
 
   Lemma set_flags_list attr st l : forall flags i b, nth_error flags i = Some b ->
-    nth_error (set_flags attr st (Some (SList l)) flags) i = Some (if hits attr l i then st else b).
+    nth_error (set_flags E attr st (Some (SList l)) flags) i = Some (if hits attr l i then st else b).
   Proof.
     cbn [set_flags]. induction l as [|e l IH]; intros flags i b Hb; [cbn; auto|].
     rewrite hits_cons. cbn [fold_left]. destruct e as [j|t]; cbn [set_entry].
     - rewrite (IH _ i _ (set_nth_nth j st flags i b Hb)). destruct (Nat.eqb j i); cbn [orb]; auto.
       destruct (hits attr l i); auto.
     - rewrite (IH _ i _ (map2_keep_nth _ attr flags i b Hb)).
-      destruct (nth_error attr i) as [a|]; cbn [orb]; auto. destruct (N.eqb a t); cbn [orb]; auto.
+      destruct (nth_error attr i) as [a|]; cbn [orb]; auto. destruct (e_match E t a); cbn [orb]; auto.
       destruct (hits attr l i); auto.
   Qed.
 
   Lemma set_flags_opt attr st o flags i b : list_sel o -> nth_error flags i = Some b ->
-    nth_error (set_flags attr st o flags) i = Some (if hits_opt attr o i then st else b).
+    nth_error (set_flags E attr st o flags) i = Some (if hits_opt attr o i then st else b).
   Proof.
     destruct o as [[| |l]|]; cbn [list_sel]; try tauto; intros _ Hb.
     all: try (apply set_flags_list; auto). all: try (cbn; auto).
